@@ -23,5 +23,10 @@ RecordedKinds(alg) == {"equal", "upper", "unequal", "trunc_odd", "trunc_even", "
                       {"other:" \o a : a \in Algs \ {alg}}
 Ver == UNION {{[k |-> "verifier", alg |-> s[1], source |-> s[2], recorded |-> r, len |-> n, chunks |-> c, seed |-> 5] :
                    r \in RecordedKinds(s[1]), n \in Lens, c \in {<<>>, <<1>>, <<64, 1>>}} : s \in Sources}
-ASSUME Emit(SetToSeq(HWok \cup HRok \cup Ver))
+\* sequences of verifications in one process: accept, reject, accept again (per algorithm), and reject first
+St(a, src, r) == [alg |-> a, source |-> src, recorded |-> r, len |-> 64, chunks |-> <<1>>, seed |-> 5]
+VerSeqs == {[k |-> "verifier_seq", steps |-> <<St(a, src, "equal"), St(a, src, "unequal"), St(a, src, "equal"), St(a, src, "trunc_even"), St(a, src, "equal")>>] :
+               a \in {"sha256", "sha512"}, src \in {"best", "hasher"}}
+           \cup {[k |-> "verifier_seq", steps |-> <<St("md5", "hasher", "unequal"), St("md5", "hasher", "equal"), St("sha1", "hasher", "unequal"), St("sha1", "hasher", "equal")>>]}
+ASSUME Emit(SetToSeq(HWok \cup HRok \cup Ver) \o SetToSeq(VerSeqs))
 =============================================================================
